@@ -1,3 +1,4 @@
+import Got.Generated.LitsTaskx
 /-
 Model of taskx.Queue (taskx/queue.go, task_callback.go, task_empty.go, option.go).
 
@@ -192,5 +193,42 @@ def get2 (s : State) : TaskRef → Option Pair
   | .empty => some nilPair
   | .cb id => if s.done id then some (s.result id) else none
   | .user _ => none
+
+/-! ### option.go — `NewQueue(options...)`
+
+    createOptions: opts := options{size: 8}; every option function is applied left to right;
+    WithSize(n) sets size only if n > 0; WithCloseChan(c) / WithErrorLogger(l) set the field only if the argument is non-nil;
+    afterwards a nil closeChan is replaced by a fresh private channel (which nobody else can close) and a nil errLogger by
+    the default logger that prints to stderr.  Channels and loggers are identified by numbers; `none` = nil. -/
+
+inductive Opt where
+  | withSize (n : Int)
+  | withCloseChan (c : Option Nat)
+  | withErrorLogger (l : Option Nat)
+  deriving Repr
+
+structure Opts where
+  size : Int
+  closeChan : Option Nat     -- none: still nil → createOptions makes a private one
+  errLogger : Option Nat     -- none: still nil → createOptions installs the default stderr logger
+  deriving Repr
+
+/-- `size: 8` in createOptions -/
+def defaultSize : Int := Got.Facts.lits_taskx_createOptions.headD 0
+
+/-- the `0` of `if size > 0` in WithSize -/
+def sizeFloor : Int := Got.Facts.lits_taskx_WithSize.headD 0
+
+def applyOpt (o : Opts) : Opt → Opts
+  | .withSize n => if n > sizeFloor then { o with size := n } else o
+  | .withCloseChan (some c) => { o with closeChan := some c }
+  | .withCloseChan none => o
+  | .withErrorLogger (some l) => { o with errLogger := some l }
+  | .withErrorLogger none => o
+
+def createOptions (l : List Opt) : Opts := l.foldl applyOpt { size := defaultSize, closeChan := none, errLogger := none }
+
+/-- capacity of `C` of `NewQueue(l...)` -/
+def effCap (l : List Opt) : Nat := (createOptions l).size.toNat
 
 end Got.Model.TaskQ
